@@ -339,7 +339,7 @@ pub fn search(_pid: &str, oid: &str, seed: u64) -> Option<Found> {
         Step::Cmd(Command::HSet("s".into(), vec![(sds(b"f"), sds(b"v"))])), Step::Cmd(Command::HGet("s".into(), sds(&[0xff]))), Step::Cmd(Command::HDel("s".into(), vec![sds(&[0xff])])), Step::Cmd(Command::HExists("str".into(), sds(b"f"))), Step::Cmd(Command::HKeys("s".into())), Step::Cmd(Command::HVals("s".into())), Step::Cmd(Command::HLen("s".into())), Step::Cmd(Command::HGetAll("str".into())),
     ];
     if let Some(f) = check_seq(&wrong, "set commands on a hash / string and hash commands on a set / string") { return Some(f); }
-    if lo.contains("spop") || lo.contains("hscan") || std::env::var("VERIF_HASHSET_STRICT").map(|v| v == "1").unwrap_or(false) { if let Some(f) = strict_extras(lo.contains("hscan")) { return Some(f); } }
+    if lo.contains("spop") || lo.contains("hscan") || std::env::var("VERIF_HASHSET_STRICT").map(|v| v != "0").unwrap_or(true) { if let Some(f) = strict_extras(lo.contains("hscan")) { return Some(f); } }
     // ---- seeded random
     let mut rng = Rng::new(seed + 1201);
     for it in 0..1500u64 {
